@@ -8,7 +8,7 @@ import numpy as np
 import z3
 from jax import random as jr
 
-from jaxsmt import concrete, core
+from jaxsmt import concrete, core, solve
 from jaxsmt.core import Check, conj, eq_arr, eq_elem, implies
 from jaxsmt.harness import UFACPolicy, UFCall, UFEnv
 from jaxsmt.interp import Interp, arr0
@@ -312,6 +312,56 @@ def check_iteration(ck):
              replay=lambda res: (True, {"note": "the step handed to the backend is not the sum over environments of the per-environment step counters after the iteration"}))
 
 
+def check_machine_step(ck):
+    """int32 semantics of the reported cumulative step.  The per-environment counters are int32 and so is their sum; the exact-counter invariant
+    c_e = n_e (n_e the true number of steps of environment e, unbounded) is preserved by next() while n_e + 1 < 2^31, and every pre-state with c_e = n_e is
+    reached by n_e real steps.  Obligation: the step handed to the backend, computed with wrapping arithmetic, is the true total sum_e n_e."""
+    from lerax.callback import IterationContext
+    from lerax.callback.base_callback import EmptyCallbackState
+    from jaxsmt.machineint import in_range, wrap_ops
+    E = 2
+    cb = LoggingCallback(Rec(), name="verif", alpha=0.5)
+    env, pol = make("discrete", False, True)
+    algo = PPO(num_envs=E, num_steps=2, num_batches=1, num_epochs=1, gamma=GAMMA)
+
+    def fn(step_state, log, it_count):
+        ctx = IterationContext(EmptyCallbackState(), step_state, env, pol, it_count, None, log, algo, {})
+        cb.on_iteration(ctx, key=jr.key(0))
+        return jnp.zeros(())
+    tr = trace(fn, example_log_state((E,)), {"loss": jnp.zeros(())}, jnp.array(0), argnames=["ls", "log", "count"], label="LoggingCallback.on_iteration (machine integers)")
+    it = Interp()
+    S = tr.symbols(it)
+    tr.run(it, S)
+    c = list(S["ls_step"])
+    av = tr.in_avals[tr.in_names.index("ls_step")]
+    ck.fact("machine.step_counters_are_int32", str(av.dtype) == "int32", f"LoggingCallbackStepState.step aval {av}")
+    ops = [x[()] for cb_ in it.callbacks for x in cb_[1] if x.shape == () and isinstance(x[()], z3.ExprRef) and z3.is_int(x[()])]
+    n = [z3.Int(f"true_steps_env{e}") for e in range(E)]
+    pre = [z3.And(n[e] >= 0, c[e] == n[e], in_range(c[e])) for e in range(E)] + [n[e] == n[0] for e in range(1, E)]      # the environments of one run step in lockstep
+    goal = core.disj([wrap_ops(x) == sum(n) for x in ops])
+
+    def rp(res):
+        got = {}
+
+        class Recording(Rec):
+            def log_scalars(self, scalars, step):
+                got["step"] = int(np.asarray(step))
+        cb2 = LoggingCallback(Recording(), name="verif-replay", alpha=0.5)
+        nv = [int(solve.num(res.value(x))) for x in n]
+        ls = example_log_state((E,))
+        import equinox as eqx
+        ls = eqx.tree_at(lambda s_: s_.step, ls, jnp.asarray(nv, jnp.int32))
+        ctx = IterationContext(EmptyCallbackState(), ls, env, pol, jnp.array(0), None, {"loss": jnp.zeros(())}, algo, {})
+        cb2.on_iteration(ctx, key=jr.key(0))
+        jax.effects_barrier()
+        return got.get("step") != sum(nv), {"function": "LoggingCallback.on_iteration (real, recording backend)", "per_environment_steps": nv, "true_total": sum(nv), "step_received_by_backend": got.get("step"),
+                                            "note": "each counter is the exact number of steps of its environment (reached by that many real steps); their int32 sum wraps"}
+    ck.prove("machine.logged_step_is_true_total@E=2", pre, goal, replay=rp)
+    # within the stated bound the reported step is exact
+    ck.prove("machine.logged_step_is_true_total_below_2^31@E=2", pre + [sum(n) < 2 ** 31], goal, replay=rp)
+    ck.witness("witness.machine.large_totals_reachable", pre + [sum(n) > 2 ** 30])
+
+
 def _is_ordered(e):
     return any("Ordered" in type(eff).__name__ for eff in e.effects)
 
@@ -456,6 +506,8 @@ def main():
         check_integration(ck)
     with ck.section("iteration"):
         check_iteration(ck)
+    with ck.section("machine"):
+        check_machine_step(ck)
     with ck.section("eval"):
         check_eval(ck)
     ck.finish("LoggingCallbackStepState.next is traced and checked as one inductive step from an arbitrary state (symbolic smoothing factor) including a ghost-variable "
